@@ -47,13 +47,22 @@ impl Model {
         let mut map: BTreeMap<Uuid, ObstData> = BTreeMap::new();
         let mut fshobstmap: BTreeMap<Uuid, f32> = BTreeMap::new();
 
+        #[cfg(cteenergymodel_verif)]
+        let verif_meta_span = crate::verif_trace::Span::new("META");
         let latitude = CLIMATEMETADATA
             .lock()
             .unwrap()
             .get(&self.meta.climate)
             .unwrap()
             .latitude;
+        #[cfg(cteenergymodel_verif)]
+        drop(verif_meta_span);
+        #[cfg(cteenergymodel_verif)]
+        crate::verif_trace::emit("\"ev\":\"Request\",\"lock\":\"JULY\"");
         let julyraddata = JULYRADDATA.lock().unwrap();
+        // declarado después del guard: se destruye antes que él (el evento Release se emite con el cerrojo tomado)
+        #[cfg(cteenergymodel_verif)]
+        let _verif_july_held = crate::verif_trace::Held::new("JULY");
         let raddata = match julyraddata.get(&self.meta.climate) {
             Some(data) => data,
             None => return fshobstmap,
